@@ -450,6 +450,24 @@ def gen_ops(ctx, exe, w, tier):
     for _ in range(6):
         ops.append("bdeS %s %s %s %s" % (rng.choice("ED"), hx(g.key()), hx(g.rb(16)), " ".join(hx(g.rb(16 * rng.randint(0, 3))) for _ in range(3))))
 
+    # -- DWP / CHE: the complete grid |associated data| 0..48 x |critical data| 0..48, one-shot Wrap and fragmented
+    #    Step interface (I / A / D with a cut inside each part); every third pair in the 32-bit-word build
+    for name in ("dwp", "che"):
+        k, iv = g.key(), g.rb(16)
+        for na in range(0, 49):
+            for nc in range(0, 49):
+                if w != 64 and (na + nc) % 3:
+                    continue
+                if (na * 49 + nc) % 97 == 0:
+                    k, iv = g.key(), g.rb(16)
+                ad, ct = g.rb(na), g.rb(nc)
+                ops.append("%s W %s %s %s %s" % (name, hx(k), hx(iv), hx(ct), hx(ad)))
+                ca, cc = (na * 7 + nc) % (na + 1), (nc * 5 + na) % (nc + 1)
+                toks = ["I" + hx(ad[:ca]), "I" + hx(ad[ca:])]
+                for x in (ct[:cc], ct[cc:]):
+                    toks += ["A" + hx(x), "D" + hx(x)]
+                ops.append("%sS %s %s %s G" % (name, hx(k), hx(iv), " ".join(toks)))
+                g.note("aead_grid")
     # -- DWP / CHE: data and AD lengths straddling 16, fragments with `filled` at every value
     for name in ("dwp", "che"):
         for n1 in list(range(0, 36)) + [47, 48, 49, 64, 100]:
@@ -712,6 +730,25 @@ def admissible(op):
     except Exception:
         return None
     return None
+
+
+def in_domain(op):
+    """Is the op inside the documented domain of the functions it calls (so that `model = standard` theorems speak about
+    it)?  Everything the generator emits is, except the deliberate out-of-contract probes listed here."""
+    t = op.split()
+    try:
+        if t[0] == "wbl":
+            n = 0 if t[4] == "-" else len(t[4]) // 2
+            nn = 2 * ((n + 15) // 16)
+            if t[1] in ("R", "EB", "EO") and nn and int(t[3]) % nn:
+                return False                       # C ASSERT: st->round % (2n) == 0
+            if t[1] == "DO" and n < 48:
+                return False                       # Opt decryption is dispatched only for count >= 80
+        if t[0] in ("s2b", "b2s"):
+            return True
+    except Exception:
+        return False
+    return True
 
 
 def search(ctx, exe, w, n=150, focus=None, differing=()):
@@ -1055,6 +1092,22 @@ def run(ctx):
             continue
         seen.add(key)
         ctx.violation(key, "# property C01\n" + text, True, what)
+    if not found and proof_ok:
+        # The theorems (model = the standard's definitions) still check and the implementation disagrees with the model on
+        # concrete ops inside the documented domain: for "returns the value the standard defines" each such op IS a failing
+        # input.  Replay re-runs the op on the implementation and compares with the model's value.
+        seenf = set()
+        for cfg, w_, i, op, c, l in mism_all:
+            if i < 0 or not in_domain(op):
+                continue
+            fam = op.split()[0]
+            if fam in seenf or len(seenf) >= 4:
+                continue
+            seenf.add(fam)
+            found.append(("model:" + fam, None, None))
+            ctx.violation("model:" + fam, "# property C01: the implementation differs from the Lean model on an in-domain op (config %s) while the\n"
+                          "# theorems model = standard still check: the value returned is not the one the standard defines\ndiff\n%s\n%s\n" % (cfg, op, l), True,
+                          "%d ops differ from the proved model, e.g. (%s): %s\n impl =%s\n model=%s" % (len(mism_all), cfg, op[:300], c[:200], l[:200]))
     if not found:
         if not proof_ok:
             errs = "\n".join("# " + l for l in log.split("\n") if "error" in l)[:3000]
